@@ -264,7 +264,7 @@ theorem covers_iff (d host : Str) : covers d host = true ↔ host = d ∨ ∃ pr
 theorem ref_exclusion_wins (a : Abstract) (q : OReq) (ds : List Str) (d : Str)
     (he : excludedDomains (a.options.getD []) = some ds) (hd : d ∈ ds) (hc : covers d q.srcHost = true)
     (hs : q.srcHost ≠ []) : refOptions a q = false := by
-  unfold refOptions
+  unfold refOptions refExcOk
   simp only [he]
   have : ds.any (fun d => covers d q.srcHost) = true := List.any_eq_true.2 ⟨d, hd, hc⟩
   have hne : q.srcHost.isEmpty = false := by cases h : q.srcHost <;> simp_all
